@@ -14,11 +14,38 @@ def solver():
 def S(*args, **kw):
     """Solver call where the contract is 'returns a result': an exception is a
     discrepancy (SutRaised), not a harness error."""
+    snap = _snapshot(args, kw)
     try:
-        return solver()(*args, **kw)
+        res = solver()(*args, **kw)
     except Exception as e:  # noqa: BLE001
         raise SutRaised(f"steady_state_transport_solver raised {type(e).__name__}: {e} (kwargs "
                         f"{ {k: (v if np.ndim(v) == 0 else '...') for k, v in kw.items()} })") from e
+    changed = _changed(snap, args, kw)
+    if changed:
+        raise SutRaised(f"steady_state_transport_solver modified its argument(s) {changed} in place")
+    return res
+
+
+def _arrays(args, kw):
+    """(name, array) for every ndarray among the arguments (profiles tuple flattened)."""
+    names = ["srf_flx", "z", "profiles", "domain", "levels"]
+    items = list(zip(names, args)) + list(kw.items())
+    out = []
+    for name, v in items:
+        if isinstance(v, np.ndarray):
+            out.append((name, v))
+        elif isinstance(v, (tuple, list)):
+            out.extend((f"{name}[{i}]", x) for i, x in enumerate(v) if isinstance(x, np.ndarray))
+    return out
+
+
+def _snapshot(args, kw):
+    return [(n, a.copy()) for n, a in _arrays(args, kw)]
+
+
+def _changed(snap, args, kw):
+    now = dict(_arrays(args, kw))
+    return [n for n, before in snap if n in now and not (now[n].shape == before.shape and np.array_equal(now[n], before, equal_nan=True))]
 
 
 def as3d(a):
